@@ -11,6 +11,8 @@ mod varname_unit;
 mod total_unit;
 mod cssout_unit;
 mod pscore_unit;
+mod jslit_unit;
+mod ent_unit;
 
 pub struct Outcome {
     pub found: bool,
@@ -57,6 +59,10 @@ fn main() {
         ("CSSOUT", "run") => cssout_unit::run(&input.unwrap()),
         ("PSCORE", "search") => pscore_unit::search(),
         ("PSCORE", "run") => pscore_unit::run(&input.unwrap()),
+        ("JSLIT", "search") => jslit_unit::search(),
+        ("JSLIT", "run") => jslit_unit::run(&input.unwrap()),
+        ("ENT", "search") => ent_unit::search(),
+        ("ENT", "run") => ent_unit::run(&input.unwrap()),
         ("TOTAL", "search") => total_unit::search(),
         ("TOTAL", "run") => total_unit::run(&input.unwrap()),
         _ => {
